@@ -69,6 +69,19 @@ def determinism_sample(check, master, scratch, n, workers, tier):
     mod = plugin(check)
     hs = getattr(mod, "hashseed_for", lambda s: 0)
     seeds = [orch.derive_seed(master, check, i) for i in range(n)]
+    if getattr(mod, "FIXED_BATCHES", False):
+        b = mod.BATCH[tier]
+        runs = [{"index": i, "seed": s} for i, s in enumerate(seeds)]
+        mk = lambda: [orch.Job(check, runs[i:i + b], mod.batch_hashseed(runs[i]["seed"]), mod.TIMEOUT, {"tier": tier}) for i in range(0, n, b)]
+        a = orch.run_jobs(mk(), workers, scratch)
+        bb = orch.run_jobs(list(reversed(mk())), max(1, workers // 2), scratch)
+        diffs = []
+        for x, y in zip(a, bb):
+            if (x.get("outcome"), x.get("digest")) != (y.get("outcome"), y.get("digest")):
+                if "timeout" in (x.get("outcome"), y.get("outcome")):
+                    continue
+                diffs.append((x.get("seed"), x.get("outcome"), x.get("digest"), y.get("outcome"), y.get("digest")))
+        return diffs, len(seeds)
     ja = [orch.Job(check, [{"index": i, "seed": s}], hs(s), mod.TIMEOUT, {"tier": tier}) for i, s in enumerate(seeds)]
     a = orch.run_jobs(ja, workers, scratch)
     if getattr(mod, "ONE_RUN_PER_WORLD", False):
@@ -189,6 +202,8 @@ def main():
         runs = [{"index": i, "seed": orch.derive_seed(master, check, i)} for i in range(nruns)]
         if getattr(mod, "ONE_RUN_PER_WORLD", False):
             jobs = [orch.Job(check, [r], hs(r["seed"]), mod.TIMEOUT, {"tier": tier}) for r in runs]
+        elif getattr(mod, "FIXED_BATCHES", False):
+            jobs = [orch.Job(check, runs[i:i + batch], mod.batch_hashseed(runs[i]["seed"]), mod.TIMEOUT, {"tier": tier}) for i in range(0, nruns, batch)]
         else:
             jobs = [orch.Job(check, runs[i:i + batch], 0, mod.TIMEOUT, {"tier": tier}) for i in range(0, nruns, batch)]
         deadline = t0 + args.budget if args.budget else None
@@ -229,7 +244,7 @@ def main():
                 continue
             seen_classes.add(cls)
             case = v["case"]
-            hseed = hs(v.get("seed") or 0)
+            hseed = int(v.get("hashseed") or hs(v.get("seed") or 0))
             sh = orch.run_single(check, {"index": 0, "mode": "shrink", "case": case}, scratch, hashseed=hseed, timeout=mod.TIMEOUT,
                                  extra={"tier": tier})
             final_case = case
